@@ -69,6 +69,11 @@ def gen_trans(rng, prog):
         rec["collapse"] = pick(rng, [2, 2, 3])
     if prog.get("perfect3"):
         rec["collapse"] = pick(rng, [3, 3, 2, None])
+    if prog.get("flow2"):
+        # both loops in one parallel region
+        rec.update({"kind": "loop+parallel", "directive": "do",
+                    "schedule": pick(rng, ["static", "dynamic", "none"]),
+                    "chunk": None, "region_start": 0, "collapse": None})
     if kind == "loop+parallel":
         rec["directive"] = fgen.weighted(rng, [(6, "do"), (2, "paralleldo"),
                                                (1, "teamsdistributeparalleldo"
